@@ -145,6 +145,7 @@ type QSpec struct {
 	IMax      *bool    `json:"imax,omitempty"`
 	SMin      string   `json:"smin,omitempty"`
 	SMax      string   `json:"smax,omitempty"`
+	Parser    string   `json:"parser,omitempty"` // date_range_string: name of a date time parser of the mapping
 	Start     *int64   `json:"start,omitempty"` // nanoseconds relative to 2020-01-01T00:00:00Z
 	End       *int64   `json:"end,omitempty"`
 	ZoneMin   int      `json:"zone,omitempty"` // location of the time values: UTC offset in minutes
@@ -182,7 +183,17 @@ func lowerWord(r *vrand.R) string {
 
 func genLeaf(r *vrand.R) QSpec {
 	q := QSpec{}
-	switch r.Intn(17) {
+	switch r.Intn(19) {
+	case 17, 18:
+		// string bounds in the syntax of a (custom) date time parser registered in the mapping
+		q = QSpec{T: "date_range_string", Field: vrand.Pick(r, []string{"when", "when", ""}), IMin: optB(r), IMax: optB(r)}
+		q.Parser = genParserName(r)
+		if !r.Chance(1, 5) {
+			q.SMin = genDateText(r, q.Parser)
+		}
+		if q.SMin == "" || !r.Chance(1, 4) {
+			q.SMax = genDateText(r, q.Parser)
+		}
 	case 0:
 		q = QSpec{T: "term", Text: lowerWord(r), Field: vrand.Pick(r, textFields)}
 	case 1, 2:
@@ -286,6 +297,48 @@ func genLeaf(r *vrand.R) QSpec {
 		q.Boost = &b
 	}
 	return q
+}
+
+// genParserName: "" (the default parser), one of the registered custom parsers, rarely a name
+// that is not registered.
+func genParserName(r *vrand.R) string {
+	switch r.Intn(12) {
+	case 0, 1:
+		return ""
+	case 2:
+		return "nosuch"
+	}
+	return dtParsers[r.Intn(len(dtParsers))].Name
+}
+
+// genDateOffset: an instant as nanoseconds relative to dateBase, around the corpus' date values.
+func genDateOffset(r *vrand.R) int64 {
+	switch r.Intn(6) {
+	case 0:
+		return int64(r.Range(-3, 3)) * 24 * int64(time.Hour)
+	case 1:
+		return int64(r.Range(-3, 3)) * int64(time.Minute)
+	case 2:
+		return int64(r.Range(-3, 8)) * int64(time.Second)
+	}
+	return int64(r.Range(-20, 80)) * 50 * int64(time.Millisecond)
+}
+
+// genDateText: an instant written in the syntax of the named parser; one time in eight in
+// another syntax (RFC 3339, which most of the custom parsers reject, or another parser's).
+func genDateText(r *vrand.R, parser string) string {
+	t := dateBase.Add(time.Duration(genDateOffset(r)))
+	p := dtParserNamed(parser)
+	if r.Chance(1, 8) {
+		if r.Bool() {
+			return t.Format(time.RFC3339Nano)
+		}
+		p = &dtParsers[r.Intn(len(dtParsers))]
+	}
+	if p == nil { // default parser (dateTimeOptional) or an unregistered name
+		return t.Format(vrand.Pick(r, []string{time.RFC3339Nano, time.RFC3339Nano, "2006-01-02T15:04:05", "2006-01-02 15:04:05", "2006-01-02"}))
+	}
+	return p.text(t)
 }
 
 func genKids(r *vrand.R, depth, lo, hi int) []QSpec {
@@ -407,6 +460,13 @@ func build(s QSpec) query.Query {
 	case "date_range":
 		m := bleve.NewDateRangeInclusiveQuery(specTime(s, s.Start), specTime(s, s.End), s.IMin, s.IMax)
 		fld(m)
+		q = m
+	case "date_range_string":
+		m := bleve.NewDateRangeInclusiveStringQuery(s.SMin, s.SMax, s.IMin, s.IMax)
+		fld(m)
+		if s.Parser != "" {
+			m.SetDateTimeParser(s.Parser)
+		}
 		q = m
 	case "bool_field":
 		m := bleve.NewBoolFieldQuery(s.Bool)
@@ -577,7 +637,38 @@ func execJSON(in In) vh.Result {
 	if !bytes.Equal(j1, j2) {
 		return direct("json-not-idempotent", fmt.Sprintf("marshal(parse(marshal q)) differs:\n first  %s\n second %s", j1, j2))
 	}
-	// (i) same results on both engines
+	// (i) same results on both engines. The very objects that were marshalled (q) and parsed (q2)
+	// are executed, on every engine, and looked at again afterwards.
+	if d := sameHits(in.Corpus, "json-exec-differs", fmt.Sprintf("query %s vs its JSON round trip", trunc(string(j1), 600)),
+		func() query.Query { return q },
+		func() query.Query { return q2 }); d != nil {
+		return vh.Result{Class: class, Direct: d}
+	}
+	// the query values as they stand after execution: their JSON must parse back to a query with
+	// the same results (a changed serialisation alone is only counted)
+	infoChanged := false
+	for i, x := range []query.Query{q, q2} {
+		x := x
+		which := []string{"as constructed", "as parsed back"}[i]
+		j3, err := json.Marshal(x)
+		if err != nil {
+			return direct("json-marshal-error", fmt.Sprintf("json.Marshal after executing the query (%s) failed: %v", which, err))
+		}
+		if bytes.Equal(j1, j3) {
+			continue // same JSON as before execution: covered by the comparison above
+		}
+		infoChanged = true
+		p3, err := query.ParseQuery(j3)
+		if err != nil {
+			return direct("json-parse-error", fmt.Sprintf("after it was executed the query (%s) marshals to %s, which query.ParseQuery rejects: %v", which, j3, err))
+		}
+		if d := sameHits(in.Corpus, "json-exec-differs", fmt.Sprintf("executed query %s vs its JSON round trip", trunc(string(j3), 600)),
+			func() query.Query { return x },
+			func() query.Query { return p3 }); d != nil {
+			return vh.Result{Class: class, Direct: d}
+		}
+	}
+	// a freshly built / freshly parsed pair, never executed before
 	if d := sameHits(in.Corpus, "json-exec-differs", fmt.Sprintf("query %s vs its JSON round trip", trunc(string(j1), 600)),
 		func() query.Query { return build(spec) },
 		func() query.Query { p, _ := query.ParseQuery(j1); return p }); d != nil {
@@ -613,6 +704,12 @@ func execJSON(in In) vh.Result {
 		return direct("json-marshal-error", werr.Error())
 	}
 	hist := []string{"json", "json:root=" + spec.T}
+	if spec.T == "date_range_string" {
+		hist = append(hist, "json:date_range_string:parser="+spec.Parser)
+	}
+	if infoChanged {
+		hist = append(hist, "json:info:serialisation-changed-by-search")
+	}
 	if class != "" {
 		hist = append(hist, "json:daterange-subsecond")
 	}
@@ -641,6 +738,19 @@ type FacetSpec struct {
 	Num     [][2]*float64 `json:"num,omitempty"`
 	Dates   [][2]*int64   `json:"dates,omitempty"` // ns relative to dateBase
 	DateStr bool       `json:"date_str,omitempty"` // add as strings
+	DR      []DateRangeSpec `json:"dr,omitempty"`    // date ranges, each with its own way of giving the bounds
+}
+
+// DateRangeSpec is one bucket of a date-range facet: time.Time bounds (AddDateTimeRange), string
+// bounds for the default parser (AddDateTimeRangeString) or string bounds naming a date time
+// parser of the mapping (AddDateTimeRangeStringWithParser).
+type DateRangeSpec struct {
+	Mode   int     `json:"mode"` // 0 time.Time, 1 strings, 2 strings with parser
+	Lo     *int64  `json:"lo,omitempty"`
+	Hi     *int64  `json:"hi,omitempty"`
+	SLo    *string `json:"slo,omitempty"`
+	SHi    *string `json:"shi,omitempty"`
+	Parser string  `json:"parser,omitempty"`
 }
 
 type ReqSpec struct {
@@ -708,7 +818,51 @@ func genReq(r *vrand.R) ReqSpec {
 	}
 	for i := 0; i < nf; i++ {
 		f := FacetSpec{Name: fmt.Sprintf("f%d", i), Size: r.Range(1, 5)}
-		switch r.Intn(4) {
+		switch r.Intn(6) {
+		case 4, 5:
+			// date ranges whose bounds are given per bucket as time.Time values, as strings for the
+			// default parser, or as strings in the syntax of a named parser of the mapping
+			f.Field = "when"
+			n := r.Range(1, 4)
+			mode := r.Intn(4) // 3: mixed
+			parser := genParserName(r)
+			for k := 0; k < n; k++ {
+				d := DateRangeSpec{Mode: mode}
+				if mode == 3 {
+					d.Mode = r.Intn(3)
+				}
+				lo, hi := !r.Chance(1, 4), !r.Chance(1, 4)
+				if !lo && !hi {
+					lo = true
+				}
+				switch d.Mode {
+				case 0:
+					if lo {
+						v := genDateOffset(r)
+						d.Lo = &v
+					}
+					if hi {
+						v := genDateOffset(r)
+						d.Hi = &v
+					}
+				default:
+					if d.Mode == 2 {
+						d.Parser = parser
+						if mode == 3 && r.Bool() {
+							d.Parser = genParserName(r)
+						}
+					}
+					if lo {
+						v := genDateText(r, d.Parser)
+						d.SLo = &v
+					}
+					if hi {
+						v := genDateText(r, d.Parser)
+						d.SHi = &v
+					}
+				}
+				f.DR = append(f.DR, d)
+			}
 		case 0:
 			f.Field = vrand.Pick(r, []string{"tag", "title", "body"})
 			if r.Chance(1, 3) {
@@ -755,7 +909,7 @@ func genReq(r *vrand.R) ReqSpec {
 	if r.Chance(1, 6) {
 		rq.Score = "none"
 	}
-	if r.Chance(1, 5) {
+	if r.Chance(1, 3) {
 		// paging keys: one value per sort key
 		n := len(rq.Sort) + len(rq.SortStrs)
 		if n == 0 {
@@ -844,6 +998,24 @@ func buildReq(s ReqSpec) (*bleve.SearchRequest, error) {
 				fr.AddDateTimeRange(name, st, en)
 			}
 		}
+		for i, d := range f.DR {
+			name := fmt.Sprintf("d%d", i)
+			switch d.Mode {
+			case 0:
+				var st, en time.Time
+				if d.Lo != nil {
+					st = dateBase.Add(time.Duration(*d.Lo))
+				}
+				if d.Hi != nil {
+					en = dateBase.Add(time.Duration(*d.Hi))
+				}
+				fr.AddDateTimeRange(name, st, en)
+			case 1:
+				fr.AddDateTimeRangeString(name, strCopy(d.SLo), strCopy(d.SHi))
+			default:
+				fr.AddDateTimeRangeStringWithParser(name, strCopy(d.SLo), strCopy(d.SHi), d.Parser)
+			}
+		}
 		req.AddFacet(f.Name, fr)
 	}
 	switch s.Highlight {
@@ -865,6 +1037,14 @@ func buildReq(s ReqSpec) (*bleve.SearchRequest, error) {
 	req.Score = s.Score
 	req.IncludeLocations = s.Locations
 	return req, nil
+}
+
+func strCopy(p *string) *string {
+	if p == nil {
+		return nil
+	}
+	v := *p
+	return &v
 }
 
 // resultDigest: everything a caller can observe in a SearchResult except timings and the echoed request.
@@ -939,29 +1119,106 @@ func execReq(in In) vh.Result {
 			}
 		}
 	}
+	// The statement is about request VALUES: whatever value a request has, its JSON parses back to
+	// an equivalent request. Two values are looked at per engine: the request as constructed, and
+	// the request as it stands after Index.Search has run on it (successfully or not) - requests
+	// are reused, and Search is allowed to touch its argument, but the value it leaves behind must
+	// still serialise to a request that means the same. ONE request object ("used") goes through
+	// all engines. Equivalence = same sort order attribute by attribute + same results when both
+	// are executed; a changed serialisation alone is only counted (hist), never reported.
+	used, _ := buildReq(spec)
+	hist := []string{"req"}
 	for _, eng := range engines {
 		idx, err := getIndex(in.Corpus, eng)
 		if err != nil {
 			return vh.Result{Direct: &vh.Direct{Kind: "harness-index", Detail: err.Error()}}
 		}
-		var a, b string
-		if d := vh.Guard(30*time.Second, "Index.Search(request)", func() {
+		var a, c, u0, u1, ub string
+		var jU, jB []byte
+		var errU, errP, errB error
+		var sortU, sortB string
+		if d := vh.Guard(60*time.Second, "Index.Search(request)", func() {
+			// the request as constructed vs its round trip (neither executed before)
 			r1, _ := buildReq(spec)
 			a = resultDigest(idx, r1)
-			var r2 bleve.SearchRequest
-			if err := json.Unmarshal(j1, &r2); err != nil {
-				b = "UNMARSHAL-ERR"
+			var r3 bleve.SearchRequest
+			if err := json.Unmarshal(j1, &r3); err != nil {
+				c = "UNMARSHAL-ERR " + err.Error()
+			} else {
+				c = resultDigest(idx, &r3)
+			}
+			// the request as it stands after execution vs its round trip
+			u0 = resultDigest(idx, used)
+			jU, errU = json.Marshal(used)
+			if errU != nil {
 				return
 			}
-			b = resultDigest(idx, &r2)
+			var r2 bleve.SearchRequest
+			if errP = json.Unmarshal(jU, &r2); errP != nil {
+				return
+			}
+			sortU, sortB = sortDump(used.Sort), sortDump(r2.Sort)
+			u1 = resultDigest(idx, used)
+			ub = resultDigest(idx, &r2)
+			jB, errB = json.Marshal(&r2)
 		}); d != nil {
 			return vh.Result{Class: class, Direct: d}
 		}
-		if a != b {
-			return direct("request-exec-differs", fmt.Sprintf("request %s on corpus %d (%s):\n direct     %s\n round trip %s", trunc(string(j1), 800), in.Corpus, eng, trunc(a, 1500), trunc(b, 1500)))
+		where := fmt.Sprintf("request %s on corpus %d (%s)", trunc(string(j1), 800), in.Corpus, eng)
+		if a == "ERR" {
+			hist = append(hist, "req:search-error")
+		}
+		if a != c {
+			return direct("request-exec-differs", fmt.Sprintf("%s:\n direct     %s\n round trip %s", where, trunc(a, 1500), trunc(c, 1500)))
+		}
+		after := fmt.Sprintf("%s: after Index.Search ran on it the request serialises as\n %s\n", where, trunc(string(jU), 800))
+		if errU != nil {
+			return direct("request-marshal-error", where+": after execution: "+errU.Error())
+		}
+		if errP != nil {
+			return direct("request-parse-error", after+" which SearchRequest.UnmarshalJSON rejects: "+errP.Error())
+		}
+		if sortU != sortB {
+			return direct("request-sort-differs", fmt.Sprintf("%s sort order of the executed request %s, after its JSON round trip %s", after, sortU, sortB))
+		}
+		if u1 != ub {
+			return direct("request-exec-differs", fmt.Sprintf("%s the executed request returns\n   %s\n its JSON round trip returns\n   %s", after, trunc(u1, 1500), trunc(ub, 1500)))
+		}
+		if errB != nil {
+			return direct("request-marshal-error", after+" marshalling the parsed-back request: "+errB.Error())
+		}
+		if !bytes.Equal(jU, jB) {
+			return direct("request-json-not-idempotent", fmt.Sprintf("%s first  %s\nsecond %s", after, jU, jB))
+		}
+		// informational only (not part of C17's statement)
+		if !bytes.Equal(j1, jU) {
+			hist = append(hist, "req:info:serialisation-changed-by-search")
+		}
+		if u0 != u1 {
+			hist = append(hist, "req:info:second-execution-differs")
 		}
 	}
-	return vh.Result{Skip: true, Hist: []string{"req"}}
+	for _, f := range spec.Facets {
+		for _, d := range f.DR {
+			hist = append(hist, fmt.Sprintf("req:facet-date:mode=%d", d.Mode))
+			if d.Mode == 2 {
+				hist = append(hist, "req:facet-date:parser="+d.Parser)
+			}
+		}
+		if len(f.Num) > 0 {
+			hist = append(hist, "req:facet-numeric")
+		}
+		if len(f.Num) == 0 && len(f.DR) == 0 && len(f.Dates) == 0 {
+			hist = append(hist, "req:facet-terms")
+		}
+	}
+	if spec.After != nil {
+		hist = append(hist, "req:search-after")
+	}
+	if spec.Before != nil {
+		hist = append(hist, "req:search-before")
+	}
+	return vh.Result{Skip: true, Hist: hist}
 }
 
 
